@@ -40,7 +40,7 @@ def run(ctx):
         "sources on which the real scanner itself panics are outside C24 (they are C15's subject) and are only counted",
         "format.Source is deterministic (the SourceEx clause compares three separate calls)",
     ]
-    common.standard(ctx, "GopModel.Props.C24", "c24", 900, 40000, RULE, driver="drv_pureb", post=post)
+    common.standard(ctx, "GopModel.Props.C24", "c24", 700, 40000, RULE, driver="drv_pureb", post=post)
 
 
 def replay(ctx, obj):
